@@ -1,7 +1,7 @@
 """Per-property configuration for bin/check."""
 
 KERNEL = "Lean 4.33.0 kernel; axioms allowed: propext, Classical.choice, Quot.sound (audited per theorem with #print axioms)"
-TRANSLATOR = "translator bin/extract (harness/cmd/extract/translate.go): Go fragments made of integer assignments, if, return, len, slice and index expressions are translated statement for statement into Generated/Translated.lean on every run (int arithmetic wraps at 64 bits, slice/index out of range = panic); trusted: go/parser, the 300-line translator and the semantics of Model/GoSem; units: clampRange, limitZSetMembers, List.Index, the GETRANGE window, the incdecExecutor overflow test, the DECRBY guard"
+TRANSLATOR = "translator bin/extract (harness/cmd/extract/translate.go): Go fragments made of integer assignments, if, return, len, slice and index expressions are translated statement for statement into Generated/Translated.lean on every run (int arithmetic wraps at 64 bits, slice/index out of range = panic); trusted: go/parser, the 300-line translator and the semantics of Model/GoSem; units: clampRange, limitZSetMembers, List.Index, the GETRANGE window, the incdecExecutor overflow test, the DECRBY guard, the length test of nextLengthBytes (with the constant MaxBulkLength read from its declaration), the window arguments of ZREVRANGE's ZRange call"
 TIE = "correspondence check: Go harness (bin/vh, built -tags verif from /repo's working tree) vs compiled Lean model driver on the same case lines"
 
 PROPS = {
@@ -30,7 +30,7 @@ PROPS["C06"] = dict(
          "(truncate, splice, flip, duplicate, edit length/count digits to boundary integers 2^31-1, 2^31, 2^63-2, 2^63-1, 10^13, -1, -2^63, 512MiB+-1, "
          "drop/double CR/LF), random bytes; bulks whose length is 2^k+c (k<=20, c in -2..2) with the payload present, one byte short, and absent (bulk); in the thorough tier every bulk length up to 1 MiB from a synthetic reader (bulksweep; quick: windows around the powers of two); a per-case deadline in the harness (60 s) turns a hang into a reported failure; declared sizes >=10^7 run in an isolated child (GOMEMLIMIT, 5 s); "
          "non-trivial = every case; distinct = distinct case line",
-    trusted_base=[KERNEL, TIE, "Go runtime behaviour of make() for sizes <= 512 MiB + 2", "io.Reader contract as in C02"],
+    trusted_base=[KERNEL, TIE, TRANSLATOR, "Go runtime behaviour of make() for sizes <= 512 MiB + 2", "io.Reader contract as in C02"],
     assumptions=["stack exhaustion by nesting far beyond 1 MiB of input is outside the model", "memory exhaustion below the 512 MiB bulk limit is outside the model"],
     timeout=900,
 )
